@@ -1025,7 +1025,32 @@ func (s *ndScan) scan(body ast.Node) {
 		case *ast.CallExpr:
 			if sel, ok := v.Fun.(*ast.SelectorExpr); ok {
 				if sel.Sel.Name == "Range" && len(v.Args) == 1 {
-					s.add("syncmap", sel)
+					key := s.add("syncmap", sel)
+					if fl, ok := v.Args[0].(*ast.FuncLit); ok {
+						s.loop(key, fl.Body, true)
+					} else {
+						s.loop(key, v.Args[0], true)
+					}
+				}
+				if (sel.Sel.Name == "Err" || sel.Sel.Name == "Deadline") && len(v.Args) == 0 {
+					// context polling: the receiver is a context.Context, or of unknown type
+					t := s.typeOf(sel.X, 0)
+					switch {
+					case t.ok() && strings.HasSuffix(s.text(t.e), "context.Context"):
+						s.add("ctxpoll", sel)
+					case !t.ok() || !s.w.under(s.w.deref(t)).ok():
+						s.add("ctxpoll?", sel)
+					}
+				}
+				if (sel.Sel.Name == "MapRange" || sel.Sel.Name == "MapKeys") && len(v.Args) == 0 {
+					s.add("mapkeys", sel)
+				}
+				if strings.HasSuffix(sel.Sel.Name, "f") {
+					for _, a := range v.Args {
+						if bl, ok := a.(*ast.BasicLit); ok && bl.Kind == token.STRING && strings.Contains(bl.Value, "%p") {
+							s.add("ptrfmt", sel)
+						}
+					}
 				}
 			}
 		case *ast.SelectorExpr:
